@@ -50,6 +50,7 @@ def options_for(rng, name, rel, d, ncls):
       o['embedding_type'] = str(rng.choice(['weighted', 'plain', 'orthonormalized']))
   else:
     o = gen.options(rng, name, d, ncls)
+    o.pop('diagonal', None); o.pop('diagonal_c', None)      # (MMC's diagonal variant may legitimately raise: C14)
   if name in ('RCA', 'LFDA') and rng.random() < 0.4:
     o['n_components'] = int(rng.integers(1, d + 1))
   if name.startswith('SDML'):
